@@ -8,7 +8,7 @@
    system with the modes the property allows. *)
 From Coq Require Import Permutation.
 From Oras Require Import Base.Prelude Generated.GC12 Model.TarRoundTrip Model.FileAnnotations
-  Proofs.TarRoundTrip Proofs.TarWalkOrder Proofs.TarListingOrder Proofs.TarRootMode.
+  Proofs.TarRoundTrip Proofs.TarWalkOrder Proofs.TarListingOrder Proofs.TarRootMode Proofs.TarUnprivileged.
 
 (* Round trip at full strength: every path of the restored directory -- the directory itself
    included -- is the path of the source tree: same kind, bytes, link target, and mode (minus
@@ -47,6 +47,39 @@ Theorem C12_roundtrip_preserve :
       forall p, fs_lookup f' p = expected umask true T p.
 Proof. exact roundtrip_preserve_full. Qed.
 Print Assumptions C12_roundtrip_preserve.
+
+(* An unprivileged user unpacks exactly what root unpacks -- for EVERY archive (any entry list,
+   not only those written by Add): [extract_p false] adds the kernel's check that the owner has
+   write+search permission on the directory in which an entry is created, replaced or removed;
+   with restoreDirModes every directory has mode | 0700 while entries are created, so under a
+   umask without owner write/search bits the check never fails. *)
+Theorem C12_unprivileged_same_as_root :
+  forall priv pre umask preserve es,
+    N.land umask 192 = 0 ->
+    extract_p priv pre umask preserve es = extract pre umask preserve es.
+Proof. exact unprivileged_same_as_root. Qed.
+Print Assumptions C12_unprivileged_same_as_root.
+
+Theorem C12_roundtrip_unprivileged :
+  forall pre umask preserve repro T,
+    N.land umask 192 = 0 -> (preserve = false -> umask <= 511) ->
+    is_dir T = true -> wf_treeb T = true -> modes_okb T = true -> benign_tree pre T = true ->
+    exists f', extract_p false pre umask preserve (tar_entries pre repro T) = Ok f' /\
+      forall p, fs_lookup f' p = expected umask preserve T p.
+Proof. exact roundtrip_unprivileged. Qed.
+Print Assumptions C12_roundtrip_unprivileged.
+
+(* The code before restoreDirModes (directories created with their recorded mode): the owner
+   cannot fill a 0555 directory (EACCES), with and without PreservePermissions; root can; the
+   current code can.  Finding "nonroot-permission-denied", fixed in the repository. *)
+Theorem C12_readonly_dir_prefix_refuted :
+  extract_prefix_p false [b "d"] 18 false (tar_entries [b "d"] true readonly_dir_witness) = Err XPerm /\
+  extract_prefix_p false [b "d"] 18 true (tar_entries [b "d"] true readonly_dir_witness) = Err XPerm /\
+  (exists f, extract_prefix_p true [b "d"] 18 false (tar_entries [b "d"] true readonly_dir_witness) = Ok f) /\
+  exists f', extract_p false [b "d"] 18 false (tar_entries [b "d"] true readonly_dir_witness) = Ok f' /\
+    fs_lookup f' [b "ro"] = Some (NDir 365) /\ fs_lookup f' [b "ro"; b "f"] = Some (NFile (b "x") 292).
+Proof. exact readonly_dir_prefix_refuted. Qed.
+Print Assumptions C12_readonly_dir_prefix_refuted.
 
 (* [benign_tree] is needed, and what it excludes is rejected by the code depending on the
    extraction order: d/{b/f, a -> b, c -> a/f} (relative links, all inside) is refused
